@@ -254,3 +254,65 @@ func H_C10_os() {
 	}
 	vCover("C10os.done")
 }
+
+// H_C10_mmap: an iterator racing Compact (case 0) or Close (case 1) on the
+// memory-mapped file system (kernel model, mapping scaled to 1 KiB): the scanner
+// thread calls Next until done, the other thread removes/unmaps the segment the
+// queued items came from, at every interleaving of their lock acquisitions.
+// Touching an unmapped view is a fault obligation of the engine; every pair that
+// Next returns must be one that was put.
+func H_C10_mmap() {
+	n := 2
+	vlen := 2
+	rec := 10 + 8 + vlen
+	db, err := Open("c10mm", smallOpts(fs.OSMMap, 2, rec))
+	vAssert(err == nil, "C10mm.open")
+	if err != nil {
+		return
+	}
+	r := newRef(n, 8)
+	// both keys in one bucket: one fetch queues both items
+	vAssume(db.hash(r.keys[0])&7 == db.hash(r.keys[1])&7)
+	v0 := vBytes("val", vlen)
+	v1 := vBytes("val", vlen)
+	v0b := vBytes("val", vlen)
+	vAssert(db.Put(r.keys[0], v0) == nil, "C10mm.put")
+	vAssert(db.Put(r.keys[1], v1) == nil, "C10mm.put")
+	vAssert(db.Put(r.keys[0], v0b) == nil, "C10mm.put") // segment 0 now holds a dead record
+	closing := vCase()%2 == 1
+	it := db.Items()
+	vGo(func() {
+		for j := 0; j < 4; j++ {
+			k, v, err := it.Next()
+			if err != nil {
+				// ErrIterationDone, or an error because the database was closed
+				vAssert(err == ErrIterationDone || closing, "C10mm.next.err")
+				if !closing {
+					vAssert(j == 2, "C10mm.scan-returns-both-keys-once")
+				}
+				break
+			}
+			if len(k) == 8 && k[0] == r.keys[0][0] {
+				vAssert(vEqBytes(k, r.keys[0]), "C10mm.key0")
+				vAssert(vOr(vEqBytes(v, v0), vEqBytes(v, v0b)), "C10mm.value0")
+			} else {
+				vAssert(vEqBytes(k, r.keys[1]), "C10mm.key1")
+				vAssert(vEqBytes(v, v1), "C10mm.value1")
+			}
+			vCover("C10mm.next-returned-an-item")
+		}
+	})
+	vGo(func() {
+		if closing {
+			vAssert(db.Close() == nil, "C10mm.close")
+		} else {
+			cr, err := db.Compact()
+			vAssert(err == nil, "C10mm.compact")
+			if cr.CompactedSegments > 0 {
+				vCover("C10mm.segment-unmapped-by-compaction")
+			}
+		}
+	})
+	vJoin()
+	vCover("C10mm.done")
+}
